@@ -205,13 +205,29 @@ void vrt_unname(const void *p)
 		}
 }
 
-static struct nm *find_name(const void *p)
+const char *(*vrt_unknown_hook)(const void *p);
+
+static struct nm *find_name0(const void *p)
 {
 	int i;
 	for (i = nn - 1; i >= 0; i--)
 		if ((const char *)p >= N[i].base && (const char *)p < N[i].base + N[i].size)
 			return &N[i];
 	return NULL;
+}
+
+static struct nm *find_name(const void *p)
+{
+	struct nm *n = find_name0(p);
+	static __thread int in_hook;
+	if (!n && vrt_unknown_hook && !in_hook) {
+		/* the scenario may name objects lazily (e.g. bp reader slots allocated inside the library) */
+		in_hook = 1;
+		if (vrt_unknown_hook(p))
+			n = find_name0(p);
+		in_hook = 0;
+	}
+	return n;
 }
 
 int vrt_is_named(const void *p) { return find_name(p) != NULL; }
